@@ -51,7 +51,7 @@ func mkCase(d desc) Case {
 	p := res.Pattern(d.P)
 	var c Case
 	c.Desc = d
-	var validP, matches, vok, replM, ridS, partS, pathP, cex, validS, pathS bool
+	var validP, matches, vok, replM, ridS, partS, pathP, cex, validS, pathS, reg, routed, nosep bool
 	var vals map[string]string
 	var repl, replTag string
 	idx := -1
@@ -78,6 +78,19 @@ func mkCase(d desc) Case {
 				idBackOK = true
 			}
 		}
+		// registration and routing of the single pattern on a Mux with path "svc" (C17: validity is consistent with what
+		// registration and routing accept): the pattern registers iff it is valid (and names no tag twice); a plain
+		// name is routed iff the pattern matches it; a name that merely starts with the path is never routed
+		if d.P != "" {
+			m := res.NewMux("svc")
+			reg = !safe(func() { m.Handle(d.P, res.GetResource(func(res.GetRequest) {})) })
+			if reg {
+				safe(func() { routed = m.GetHandler("svc."+d.S) != nil })
+				if d.S != "" && d.S[0] != '.' {
+					safe(func() { nosep = m.GetHandler("svc"+d.S) != nil })
+				}
+			}
+		}
 		if validP && matches && res.Pattern(d.S).IsValid() {
 			sp := res.Pattern(d.S)
 			for _, n := range coverNames {
@@ -91,9 +104,9 @@ func mkCase(d desc) Case {
 	if pan {
 		c.Tags = append(c.Tags, "panic")
 	}
-	c.Term = fmt.Sprintf("PC %s %s %s %s %s %s %s %s %s %s %s %s %s %s %s %s %s %s",
+	c.Term = fmt.Sprintf("PC %s %s %s %s %s %s %s %s %s %s %s %s %s %s %s %s %s %s %s %s %s",
 		B(d.P), B(d.S), B(d.Tag), B(d.Val), Bool(validP), Bool(matches), OptAMap(vals, vok), B(repl), Bool(replM),
-		B(replTag), OptN(idx, idx >= 0), Bool(ridS), Bool(partS), Bool(pathP), OptB(idBack, idBackOK), Bool(cex), Bool(validS), Bool(pathS))
+		B(replTag), OptN(idx, idx >= 0), Bool(ridS), Bool(partS), Bool(pathP), OptB(idBack, idBackOK), Bool(cex), Bool(validS), Bool(pathS), Bool(reg), Bool(routed), Bool(nosep))
 	// non-trivial: a special character occurs not at token start, or the name has an empty token,
 	// or (valid pattern with a wildcard and the name matches)
 	midSpecial := false
